@@ -432,6 +432,22 @@ func runC13Conc(c c13ConcCase, tr *vw.Trace) *vw.Violation {
 		}
 		time.Sleep(time.Millisecond)
 	}
+	// ... and has written the reply to the request it took last: an empty queue only says the request was read. The
+	// responder gets up to 30 s for it (a machine busy with other checks), a reply still missing then is reported
+	quiet := func() int {
+		w.conns["ifA"].mu.Lock()
+		defer w.conns["ifA"].mu.Unlock()
+		n := 0
+		for _, fb := range w.conns["ifA"].out {
+			if f, p, err := decodeARP(fb); err == nil && f.Destination.String() != ethernet.Broadcast.String() && p.SenderIP.Equal(net.ParseIP(X)) {
+				n++
+			}
+		}
+		return n
+	}
+	for int64(quiet()) < atomic.LoadInt64(&sentX) && time.Now().Before(deadline) {
+		time.Sleep(time.Millisecond)
+	}
 	time.Sleep(2 * time.Millisecond)
 	var repliesX, repliesY, gratuitous int
 	for _, fb := range w.conns["ifA"].take() {
